@@ -189,8 +189,8 @@ PROPS = {
         "run_files": ["Run/CaseConn.v", "Run/CaseCookie.v"],
         "imports": ["Lib.Bytes", "Codec.Desc", "Conn.Types", "Conn.Prog", "Conn.Sem1", "Run.CaseConn"],
         "case_type": "conn_case",
-        "checkers": {"BASE": "check_c03", "C10": "check_c03"},
-        "harness": [{"bin": "conn", "env": {"VERIF_FAMILIES": "BASE,C10"}}, {"bin": "cookie", "case_type": "ckcase", "imports": ["Lib.Bytes", "Run.CaseCookie"], "checkers": {"SG": "check_cookie", "CK": "check_cookie"}, "shard": 20}],
+        "checkers": {"BASE": "check_c10", "C10": "check_c10", "C02": "check_c10"},
+        "harness": [{"bin": "conn", "env": {"VERIF_FAMILIES": "BASE,C10,C02"}}, {"bin": "cookie", "case_type": "ckcase", "imports": ["Lib.Bytes", "Run.CaseCookie"], "checkers": {"SG": "check_cookie", "CK": "check_cookie"}, "shard": 20}],
         "shard": 40,
         "quick_scale": 1, "thorough_scale": 8, "search_factor": 4,
         "ties": ["conn binary: real Connection::listen on a scripted transport/client/adapters in a paused runtime vs Conn.Sem1.run1 (sends, calls, outcome, virtual ms)",
@@ -206,11 +206,11 @@ PROPS = {
     },
     "C12": {
         "props_file": "Props/C12.v",
-        "run_files": ["Run/CaseC12.v"],
+        "run_files": ["Run/CaseC12.v", "Run/CaseConn.v", "Run/CaseC11.v"],
         "imports": ["Lib.Bytes", "Run.CaseC12"],
         "case_type": "c12case",
         "checkers": {"REQ": "check_c12"},
-        "harness": [{"bin": "mojang", "crate": "harness-net"}],
+        "harness": [{"bin": "mojang", "crate": "harness-net"}, {"bin": "conn", "env": {"VERIF_FAMILIES": "C02,C01"}, "case_type": "conn_case", "imports": ["Lib.Bytes", "Codec.Desc", "Conn.Types", "Conn.Prog", "Conn.Sem1", "Run.CaseConn"], "checkers": {"C02": "check_c01", "C01": "check_c01"}, "shard": 40}, {"bin": "hash", "case_type": "c11case", "imports": ["Lib.Bytes", "Run.CaseC11"], "checkers": {"H": "check_c11", "D": "check_c11"}, "shard": 60}],
         "shard": 50,
         "quick_scale": 1, "thorough_scale": 10, "search_factor": 4,
         "ties": ["Adapters/MojangUrl.v: hand model of Url::parse_with_params + form_urlencoded::byte_serialize as used by "
